@@ -360,7 +360,7 @@ func (m *Machine) callVsym(caller *frame, fn *ssa.Function, args []Value) (Value
 		return nil, true
 	case "vsym_Exit":
 		panic(abort{abExit, "vsym_Exit"})
-	case "vsym_Go":
+	case "vsym_Go", "vsym_Spawn":
 		m.spawnT(fr, fr.curPos, args[0], nil, true)
 		return nil, true
 	case "vsym_Yield":
@@ -391,6 +391,15 @@ func (m *Machine) callVsym(caller *frame, fn *ssa.Function, args []Value) (Value
 			return t.C == 1
 		})
 		return nil, true
+	case "vsym_FireTimer":
+		// deliver a tick on the k-th timer/ticker created so far (virtual time: timers fire
+		// only when the harness says so); the second argument is the period in ms, which only the
+		// native runtime uses (it sleeps that long and lets the real ticker fire)
+		k := int(args[0].(*term.Term).Signed())
+		if m.fireTimer(k) {
+			return term.True, true
+		}
+		return term.False, true
 	case "vsym_Settle":
 		// wait until every other logical thread is blocked or finished (quiescence)
 		self := m.cur
